@@ -22,6 +22,9 @@ EXPLANATION = (
 EXPLANATION += (
     ' ADDED: C13.2 now follows segyio.line.sanitize_slice: an absent or positive step runs towards larger line numbers (default start min(keys), stop max(keys)+1), a negative step the other way (max(keys), min(keys)-1), and the default step is |increment|; first / last key are extremes only on an ascending axis. C13.5: slice components are compared with None, never tested for truth. C13.6: per concrete accessor class, every value handed to values_function is in the index space (ordinal vs line number / coordinate) that the bound reader method takes, including iteration over keys_object.'
 )
+EXPLANATION += (
+    ' C13.4 also: the number -> ordinal translation is exact (rule of C14.4), so line numbers segyio rejects are rejected.'
+)
 ASSUMPTIONS = ['segyio yields all lines for f.iline[:] whatever the sign of the line increment', 'names denote what they say']
 NOT_DECIDED = ('Kind/shape/key equality with segyio, which line numbers a stepped slice selects, attributes(field)[...], text, '
                'bin, tools.dt values, parity of rejections.')
